@@ -7,6 +7,8 @@ pub mod c08;
 pub mod c09;
 pub mod c10;
 pub mod c13;
+pub mod c14;
+pub mod c16;
 pub mod c18;
 
 use crate::ctx::Ctx;
@@ -21,6 +23,8 @@ pub fn run(ctx: &mut Ctx) -> bool {
         "C09" => c09::run(ctx),
         "C10" => c10::run(ctx),
         "C13" => c13::run(ctx),
+        "C14" => c14::run(ctx),
+        "C16" => c16::run(ctx),
         "C18" => c18::run(ctx),
         _ => return false,
     }
